@@ -1005,6 +1005,64 @@ def _transparent_property(getter, setter) -> bool:
         isinstance(a.value, ast.Name) and a.value.id == setter.params[1]
 
 
+_CONSUMING_BUILTINS = {"list", "tuple", "sorted", "set", "frozenset", "next", "any", "all", "min", "max", "sum", "len", "dict", "SortedSet", "SortedList", "reversed"}
+
+
+def _consumed_before(M: Model, f: FuncInfo, par: str, store: ast.stmt) -> Optional[ast.AST]:
+    """a use of parameter `par`, other than in `store`, that walks it (a loop / comprehension over it, a consuming builtin, a package function whose
+    own parameter is walked): the node of that use, or None"""
+    in_store = {id(x) for x in ast.walk(store)}
+    order = source_order(f.node)
+    # the pass that makes the stored value is the one allowed pass: when the stored value does not read the parameter itself (it was built by a loop over
+    # it), that loop is the allowed one
+    store_reads_par = any(isinstance(x, ast.Name) and x.id == par for x in ast.walk(store.value))
+    allowance = [0 if store_reads_par else 1]
+
+    def walks(g: FuncInfo, pname: str, depth=0) -> bool:
+        for n in walk_no_nested(g.node):
+            if isinstance(n, ast.For) and isinstance(n.iter, ast.Name) and n.iter.id == pname:
+                return True
+            if isinstance(n, (ast.ListComp, ast.SetComp, ast.GeneratorExp, ast.DictComp)) and any(isinstance(c.iter, ast.Name) and c.iter.id == pname for c in n.generators):
+                return True
+            if isinstance(n, ast.Call):
+                fn_ = (dotted(n.func) or "").split(".")[-1]
+                hit = [i for i, a in enumerate(n.args) if isinstance(a, ast.Name) and a.id == pname]
+                if hit and fn_ in _CONSUMING_BUILTINS:
+                    return True
+                if hit and depth < 3:
+                    h = M.functions.get(fn_)
+                    if h is not None and not isinstance(h.node, ast.Lambda) and hit[0] < len(h.params) and walks(h, h.params[hit[0]], depth + 1):
+                        return True
+        return False
+    for n in walk_no_nested(f.node):
+        if id(n) in in_store or order.get(id(n), 0) > order.get(id(store), 0):
+            continue
+        if isinstance(n, ast.For) and isinstance(n.iter, ast.Name) and n.iter.id == par:
+            if allowance[0]:
+                allowance[0] -= 1
+                continue
+            return n.iter
+        if isinstance(n, (ast.ListComp, ast.SetComp, ast.GeneratorExp, ast.DictComp)) and any(isinstance(c.iter, ast.Name) and c.iter.id == par for c in n.generators):
+            if allowance[0]:
+                allowance[0] -= 1
+                continue
+            return n
+        if isinstance(n, ast.Call):
+            fn_ = (dotted(n.func) or "").split(".")[-1]
+            if fn_ == "next" and n.args and isinstance(n.args[0], ast.Call) and dotted(n.args[0].func) == "iter" and n.args[0].args and \
+                    isinstance(n.args[0].args[0], ast.Name) and n.args[0].args[0].id == par:
+                return n
+            hit = [i for i, a in enumerate(n.args) if isinstance(a, ast.Name) and a.id == par]
+            if not hit:
+                continue
+            if fn_ in _CONSUMING_BUILTINS and fn_ != "len":
+                return n
+            h = M.functions.get(fn_)
+            if h is not None and not isinstance(h.node, ast.Lambda) and hit[0] < len(h.params) and walks(h, h.params[hit[0]]):
+                return n
+    return None
+
+
 def check_alignment_record(ctx: Ctx, rule: str):
     """`Alignment(unitary_alignments, continuum, check_validity, disorder)` is how every alignment function hands back its result: the
     constructor keeps every unitary alignment it is given (a filter drops some: recognised shape, wrong slot), the continuum and the
@@ -1030,6 +1088,15 @@ def check_alignment_record(ctx: Ctx, rule: str):
         if len(st) != 1:
             ctx.undecided(rule, f, None, f"Alignment.__init__ stores {fld} {len(st)} times (not a verdict)", key=key, construct=fld)
             continue
+        if fld == "unitary_alignments":
+            # the argument is any iterable, possibly one that can be walked once: nothing may take elements from it before it is stored
+            early = _consumed_before(M, f, par, st[0])
+            if early is not None:
+                # the library's own callers hand over lists: a verdict for the property about alignments users build (C17), reported elsewhere
+                (ctx.bad if rule.startswith("R-C17") else ctx.undecided)(rule, f, early, f"Alignment.__init__ takes elements from `{par}` (`{norm(early)[:80]}`) before storing it: given a one-shot iterable (a generator, "
+                        f"`iter(...)`, `map`, what take_until_limit returns), the unitary alignments taken by that first pass are missing from the alignment that is "
+                        f"kept - and checked" + ("" if rule.startswith("R-C17") else " (not a verdict)"), key=key + ":consumed")
+                continue
         v = expand_locals(f.node, st[0].value)
         x = v
         while isinstance(x, ast.Call) and dotted(x.func) in ("list", "tuple") and len(x.args) == 1 and not x.keywords:
